@@ -8,6 +8,7 @@ pub mod dagprops;
 pub mod build;
 pub mod inject;
 pub mod roles;
+pub mod diag;
 pub mod checkers;
 pub mod files;
 pub mod maps;
